@@ -4,7 +4,10 @@ import json, os, subprocess
 V = os.path.dirname(os.path.dirname(os.path.abspath(__file__)))
 props = [json.loads(l)["id"] for l in open(os.path.join(V, "properties.jsonl"))]
 
-RT_NOTE = ("Trusted: TLC; the tracer/hooks (verif build tag) and the creator-relative id scheme; the 50 ms heartbeat assumption; "
+RT_NOTE = ("The non-polarized version has its own specification (GritsNP.tla: data / control rendezvous, adoption of providers at any select point), explored exhaustively for the "
+           "contraction-free small programs and bound to the code by GritsNPTrace.tla; sampled behaviours of all three versions (GritsSched.tla) are stepped through the real interpreter by the gate "
+           "(spec => code) and must end as predicted. "
+           "Trusted: TLC; the tracer/hooks (verif build tag) and the creator-relative id scheme; the 50 ms heartbeat assumption; "
            "model results transfer to the code only for the programs whose recorded traces are accepted by GritsRTTrace. "
            "Bounded: program corpus (fixed + generated for the seed), exhaustive interleavings only for small programs.")
 
@@ -14,7 +17,7 @@ CHECKS = {
         "checking NoProtocolError / OneMessagePerChannel / OneListener; the real interpreter is bound to the spec by validating every recorded hook "
         "trace (field-by-field ids, messages, head forms) with GritsRTTrace.tla; the verdict itself comes from real runs in all three modes "
         "(a panic of an accepted closed program).",
-   note=RT_NOTE, technique="TLA+ spec of the interpreter + TLC exhaustive exploration + TLC trace validation of hook traces"),
+   note=RT_NOTE, technique="TLA+ specs of the interpreter (GritsRT, GritsNP) + TLC exhaustive exploration + TLC trace validation of hook traces + gate replay of TLC-generated behaviours on the real code"),
  "C02": dict(cat="model_checking", design="DESIGN.md 5 C02",
    text="Invariant QuiescentClean checked by TLC on every terminal state of every interleaving (async: no live process; sync: parked senders only); "
         "on the real code the hook-maintained blocked table at the heartbeat time-out is judged, and TraceQuiesce demands that the spec agrees the "
@@ -169,6 +172,8 @@ def main():
          "engines": [
              {"name": "GritsRT", "path": "spec/GritsRT.tla", "serves_properties": ["C01", "C02", "C03", "C04", "C13", "C14"],
               "kind_free_text": "TLA+ specification of the polarized interpreter (one action per critical section), checked by TLC"},
+             {"name": "GritsNP", "path": "spec/GritsNP.tla", "serves_properties": ["C01", "C03", "C04", "C13"],
+              "kind_free_text": "TLA+ specification of the non-polarized execution version (rendezvous + control channel); GritsNPTrace.tla validates recorded np runs; GritsSched.tla writes behaviours out as gate plans"},
              {"name": "GritsRTTrace", "path": "spec/GritsRTTrace.tla", "serves_properties": ["C01", "C02", "C03", "C04"],
               "kind_free_text": "trace specification: recorded hook events of the real interpreter must be a behaviour of GritsRT"},
              {"name": "Sax", "path": "spec/Sax.tla", "serves_properties": ["C04", "C03", "C14"],
